@@ -606,7 +606,7 @@ def replay(ctx, obj):
 
 
 CHECK = core.Check(
-    'C02', sc.CLUSTER, 'Props/C02.v', translate=sc.translate, correspond=correspond, oracle=oracle, replay=replay,
+    'C02', sc.CLUSTER, ['Props/C02.v', 'Props/C02H.v'], translate=sc.translate, correspond=correspond, oracle=oracle, replay=replay,
     deps=('lib',),
     rule='13 credential / identity / method situations (PSK and RSA, matching and mismatching at either side) run '
          'through the real handshake with a toy PRF patched into crypto.Prf.prf, each IKE_AUTH handler invocation is one '
